@@ -312,8 +312,10 @@ class CertProperty:
             progs.append({'name': 'r%d' % i, 'modes': modes, 'inputs': inputs})
         return progs
 
-    def explore(self, rng, tier, rdir, out, replay=None):
-        if replay:
+    def explore(self, rng, tier, rdir, out, replay=None, programs=None):
+        if programs is not None:
+            progs = programs
+        elif replay:
             payload = json.load(open(replay))
             progs = [payload['program']] if 'program' in payload else []
         else:
